@@ -476,3 +476,10 @@ func TestC13KeccakBits(t *testing.T) {
 	}
 	h.RunList(t, cases, c13kCheck)
 }
+
+// The same STROBE programs and Keccak inputs, four at a time, one goroutine
+// each (h.RunPar): the permutation and the duplex code keep no hidden shared
+// state (a package-level temporary in one Keccak implementation was a seeded
+// defect; C18 reaches it through transcripts, this reaches it directly).
+func TestC13ParStrobeOps(t *testing.T) { h.RunPar(t, 4, c13sGen, c13sCheck) }
+func TestC13ParKeccak(t *testing.T)    { h.RunPar(t, 4, c13kGen, c13kCheck) }
